@@ -193,9 +193,31 @@ impl<'a, P: ?Sized + PathImpl> PathMutImpl<'a, P> {
 
 	#[inline]
 	pub fn normalize(&mut self) {
+		let relative = self.is_relative();
 		let mut buffer: SmallVec<[u8; NORMALIZE_IN_PLACE_BUFFER_LEN]> = SmallVec::new();
-		for (i, segment) in self.normalized_segments().enumerate() {
-			if i > 0 {
+
+		let segments = self.normalized_segments();
+		let count = segments.len();
+		for (i, segment) in segments.enumerate() {
+			if i == 0 {
+				// Disambiguate, as `push` does, when writing the first
+				// segment as is would change the meaning of the buffer:
+				// - it is empty and followed by other segments: the path
+				//   would become absolute (if relative), or its beginning
+				//   `//` would be mistaken for an authority;
+				// - it contains a `:` and nothing precedes the relative path:
+				//   its beginning would be mistaken for a scheme.
+				let ambiguous = if segment.is_empty() {
+					count > 1 && (relative || !self.follows_authority)
+				} else {
+					relative
+						&& self.start == 0 && parse::first_segment_has_colon(segment.as_bytes())
+				};
+
+				if ambiguous {
+					buffer.extend_from_slice(b"./")
+				}
+			} else {
 				buffer.push(b'/')
 			}
 
